@@ -122,10 +122,12 @@ impl SettingsSpec {
 pub fn parse_path(s: &str) -> syn::Path {
     // `P(A)` (parenthesised arguments) does not parse as a plain path: build it by hand
     if let Some(idx) = s.find('(') {
-        let mut base: syn::Path = syn::parse_str(&s[..idx]).unwrap_or_else(|e| panic!("path `{s}`: {e}"));
+        let mut base: syn::Path =
+            syn::parse_str(&s[..idx]).unwrap_or_else(|e| panic!("path `{s}`: {e}"));
         let args: syn::ParenthesizedGenericArguments =
             syn::parse_str(&s[idx..]).unwrap_or_else(|e| panic!("path `{s}`: {e}"));
-        base.segments.last_mut().expect("segment").arguments = syn::PathArguments::Parenthesized(args);
+        base.segments.last_mut().expect("segment").arguments =
+            syn::PathArguments::Parenthesized(args);
         return base;
     }
     syn::parse_str::<syn::Path>(s).unwrap_or_else(|e| panic!("path `{s}`: {e}"))
@@ -172,7 +174,9 @@ pub fn canon_type(ty: &syn::Type) -> String {
                             .collect();
                         x.push_str(&format!("<{}>", args.join(",")));
                     }
-                    syn::PathArguments::Parenthesized(a) => x.push_str(&squash(&quote::quote!(#a).to_string())),
+                    syn::PathArguments::Parenthesized(a) => {
+                        x.push_str(&squash(&quote::quote!(#a).to_string()))
+                    }
                     syn::PathArguments::None => {}
                 }
                 x
@@ -195,7 +199,8 @@ pub fn canon_type(ty: &syn::Type) -> String {
         syn::Type::Array(a) => {
             let len = match &a.len {
                 syn::Expr::Lit(syn::ExprLit {
-                    lit: syn::Lit::Int(i), ..
+                    lit: syn::Lit::Int(i),
+                    ..
                 }) => i.base10_digits().to_string(),
                 other => squash(&quote::quote!(#other).to_string()),
             };
